@@ -650,8 +650,10 @@ def oracle_c06(an):
                         V('credit_lost', 'interaction %d: %s granted %d credits in %d grants, only %d grants reached the %s publisher, '
                                          'which is still waiting' % (iid, cons_role, sum(granted), len(granted), len(received), prod_role),
                           None, role=prod_role, src=script.get('src'))
-    # completeness: at quiescence every element for which credit was granted has been sent
-    if an.fault_free and an.stopped:
+    # completeness: at quiescence (every interaction finished, or nothing at all has happened for 10 virtual seconds) every
+    # element for which credit was granted has been sent
+    quiet = an.world.stats.get('stop_reason') == 'quiet' and not an.world.stats.get('not_drained') and not an.world.incomplete
+    if an.fault_free and (an.stopped or quiet) and not an.plan.get('client', {}).get('honor_lease'):
         for iid, ia in an.ia.items():
             if ia['kind'] not in ('stream', 'channel') or iid not in an.sid_of:
                 continue
@@ -1465,6 +1467,15 @@ def oracle_c01_close(an):
               % (ia['kind'], iid, c.get('who')), sent['seq'], **facts)
         elif len(got) > 1:
             V('request_duplicated', '%s %d delivered %d times' % (ia['kind'], iid, len(got)), got[1]['seq'], **facts)
+    return out
+
+
+def oracle_c03_huge(an):
+    """C03 for logical frames beyond the 24-bit length of a single wire frame: the wire rules, and the reassembled frame
+    reaches the application intact (the delivery oracle's verdicts, reported under C03)."""
+    out = list(oracle_c03(an))
+    for v in oracle_c01(an):
+        out.append(Violation('C03', 'C03.large_frame_not_reassembled', v.msg, v.seq, via=v.cls, **{k: x for k, x in v.facts.items() if k != 'via'}))
     return out
 
 
